@@ -31,7 +31,7 @@ LEVEL_TEXT = ("every DBAPI call of each seeded history is a position where a rea
 LEVEL_NOTE = ("SQLite/pysqlite + QueuePool only; single caller thread; pool clock is virtual; the pool-generation rule of Pool._invalidate "
               "(an invalidation triggered by a connection older than the previous invalidation starts no new generation) is part of the model")
 TIERS = {
-    "quick": {"runs": 700, "secs": 30},
+    "quick": {"runs": 1000, "secs": 30},
     "thorough": {"runs": 40000, "secs": 420, "hashseeds": [0, 1]},
 }
 SHRINK = ["prog", "faults"]
